@@ -175,6 +175,24 @@ fn session(seed: u64, scenario: &str) -> Vec<Value> {
         ev(format!(r#"{{"ev":"poll_ret","kind":"{}","id":{},"eof":false}}"#, kind, id));
         (kind, id)
     };
+    if scenario == "big" {
+        // several window changes while one poll is busy sending a large frame: every signal the poll sees queues its own
+        // Resize behind the ones that are still waiting
+        let v = 0x80 + (frame_no % 100) as u8;
+        frame_no += 1;
+        ev(format!(r#"{{"ev":"app_write","v":{},"n":{}}}"#, v, 300000));
+        term.write_all(&vec![v; 300000]).unwrap();
+        term.flush().unwrap();
+        let raiser = std::thread::spawn(|| {
+            for gap in [1u64, 2, 3] {
+                std::thread::sleep(Duration::from_millis(gap));
+                ev(r#"{"ev":"sig_raise","sig":28}"#.to_string());
+                unsafe { libc::raise(libc::SIGWINCH) };
+            }
+        });
+        do_poll(&mut term, Some(Duration::from_millis(400)));
+        raiser.join().unwrap();
+    }
     if scenario == "escsize" {
         // a window change while a large frame is in flight, the size request queues up behind it; then the application
         // drops its stale frames: the request must survive (or be issued again), or the change is never reported
